@@ -343,6 +343,45 @@ RULE = (
     " Slice: also flat clouds (more points than dimensions in an r < d dimensional affine subspace, thin extents down to 1e-3) and tied vertices (several rows whose sums agree up to the last bit, c equal to one of them); oracle = exact enumeration (rows on the plane + crossings of all below/above pairs) over the band |c1-c| <= 1e-9 (upper envelope always, lower envelope when rows lie clearly beyond the plane on both sides). Boundary hit: vector lengths 1e-12..1e6 and cloud sizes 1e-6..1e3, alpha(s b) = alpha(b)/s."
 )
 
+# ------------------------------------------------------------------------------------------------
+# (d) the slice of a very large cloud (tens of thousands of points); data from a drawn numpy seed
+
+
+@st.composite
+def large_slice_case(draw):
+    return dict(n=draw(st.sampled_from([20000, 47011, 60000, 70001])), d=draw(st.sampled_from([2, 3, 3])), data_seed=draw(st.integers(0, 2 ** 31 - 1)),
+                t=draw(st.floats(0.15, 0.85)), shape=draw(st.sampled_from(["cube", "ball"])))
+
+
+def body_large_slice(case):
+    dreye = _dreye()
+    rng = np.random.default_rng(case["data_seed"])
+    n, d = case["n"], case["d"]
+    P = rng.uniform(0.0, 1.0, (n, d))
+    if case["shape"] == "ball":
+        G = rng.normal(size=(n, d))
+        P = 0.5 + 0.5 * G / np.linalg.norm(G, axis=1, keepdims=True) * rng.uniform(0.0, 1.0, (n, 1)) ** (1.0 / d)
+        P = np.clip(P, 0.0, None)
+    sums = P.sum(axis=1)
+    c = float(sums.min() + case["t"] * (sums.max() - sums.min()))
+    with calling(f"proj_P_to_simplex ({n} points in {d}-D)"):
+        Q = np.asarray(dreye.proj_P_to_simplex(P, c))
+    check(Q.ndim == 2 and Q.shape[1] == d and Q.shape[0] >= 1, "large-slice:shape", f"{Q.shape}")
+    check(np.all(np.abs(Q.sum(axis=1) - c) <= 1e-9 * max(1.0, c)), "large-slice:not-on-plane", f"a returned point sums to {float(Q.sum(axis=1)[np.argmax(np.abs(Q.sum(axis=1) - c))])!r} instead of {c!r}")
+    hull = _hull(P)
+    worst = float(np.max(Q @ hull.equations[:, :-1].T + hull.equations[:, -1]))
+    check(worst <= 1e-9, "large-slice:point-outside-hull", f"a returned point violates a facet inequality of the cloud's hull by {worst:.3g}")
+    V = P[hull.vertices]                      # the hull of the cloud is the hull of its vertices: exact slice by enumeration over them
+    dirs = np.vstack([np.eye(d), -np.eye(d), rng.normal(size=(12, d))])
+    dirs = dirs / np.linalg.norm(dirs, axis=1, keepdims=True)
+    lower, upper = slice_support_band(V, c, dirs, 1e-9 * max(1.0, c))
+    got = np.max(Q @ dirs.T, axis=0)
+    check(np.all(got <= upper + 1e-7), "large-slice:too-large", f"returned set exceeds the exact slice: {got.tolist()} vs {upper.tolist()}")
+    if lower is not None:
+        check(np.all(got >= lower - 1e-7), "large-slice:too-small", f"returned set misses part of the exact slice: supports {got.tolist()} < {lower.tolist()}")
+    return [f"n{n}", f"d{d}", case["shape"], "nt:large-cloud"]
+
+
 PROP = Prop(
     pid="C17",
     title="Hull projections return the nearest point, the boundary hit and the exact slice",
@@ -352,5 +391,6 @@ PROP = Prop(
         Sub("nearest_point", nearest_case(), body_nearest, quick=500, thorough=30000, quick_shards=4, min_nt_share=0.3),
         Sub("boundary_hit", hit_case(), body_hit, quick=500, thorough=30000, quick_shards=4, min_nt_share=0.3),
         Sub("simplex_slice", slice_case(), body_slice, quick=500, thorough=30000, quick_shards=4, min_nt_share=0.3),
+        Sub("large_slice", large_slice_case(), body_large_slice, quick=12, thorough=200, quick_shards=4, thorough_shards=16, min_nt_share=0.0),
     ],
 )
